@@ -6,6 +6,7 @@ import (
 	"math/rand"
 
 	regexp2 "github.com/dlclark/regexp2/v2"
+	"github.com/dlclark/regexp2/v2/syntax"
 
 	"verif/internal/core"
 	"verif/internal/gen"
@@ -149,8 +150,8 @@ func shrinkSpec(c *specCase, runes []rune, start int) (*specCase, []rune, int) {
 		if err != nil || nc == nil || nc.re == nil {
 			return nil
 		}
-		d, _, _, incon := specCompare(nc, in, st)
-		if incon != "" || d == "" {
+		d, _, w2, incon := specCompare(nc, in, st)
+		if incon != "" || d == "" || specExplainedByNonBoundaryAtomic(nc, in, st, w2) {
 			return nil
 		}
 		return nc
@@ -295,6 +296,10 @@ func runSpec(r *core.Run, rtl bool) int {
 					matched = true
 				}
 				if detail != "" {
+					if k := r.KnownClass("nonboundary-auto-atomic"); k != nil && specExplainedByNonBoundaryAtomic(c, runes, s, want) {
+						r.KnownHit(k.ID)
+						continue
+					}
 					sc, sr, ss := shrinkSpec(c, runes, s)
 					d2, g2, w2, _ := specCompare(sc, sr, ss)
 					if d2 == "" {
@@ -348,4 +353,22 @@ func runSpec(r *core.Run, rtl bool) int {
 		"patterns printed from random ASTs of the C01 fragment ("+what+"); per pattern every string up to the length bound over <=4 pattern-derived symbols plus pattern-directed strings, at every start offset; evaluation = one (pattern,input,start) comparison of FindRunesMatchStartingAt (and FindStringMatch at the scan origin) with the executable specification; non-trivial = distinct (pattern,options,input) for which the specification finds a match at some start offset (patterns and inputs are de-duplicated, so the count is exact)",
 		[]string{"the executable specification (internal/ref) is trusted", "IgnoreCase cases use only letters whose fold orbit is a simple pair", "cases where the reference budget or the engine's MatchTimeout ran out are inconclusive"},
 		map[string]int64{"evaluations": 50000, "distinct_nontrivial": 2000, "patterns": 100})
+}
+
+// specExplainedByNonBoundaryAtomic: class predicate of known finding K1 for the
+// specification checks: with only the loop-followed-by-\B auto-atomic clauses
+// gated off the engine agrees with the specification.
+func specExplainedByNonBoundaryAtomic(c *specCase, runes []rune, start int, want string) bool {
+	if c.rtl {
+		return false
+	}
+	re, err := mon.CompileGated(syntax.VerifRewriteNonBoundaryAtomic, c.pat.Src, c.opts, 0)
+	if err != nil {
+		return false
+	}
+	m, err := re.FindRunesMatchStartingAt(runes, start)
+	if err != nil {
+		return false
+	}
+	return mon.Obs(m, c.pat.Groups.Numbers) == want
 }
